@@ -86,7 +86,7 @@ def binop(op, a, b, safety=None):
         cons = [r.comps[0] == a.comps[0] + b.comps[0]]
         for ra, aa, ba in zip(r.comps[1:], a.comps[1:], b.comps[1:]):
             cons.append(z3.ForAll([i], z3.Implies(z3.And(0 <= i, i < a.comps[0]), z3.Select(ra, i) == z3.Select(aa, i))))
-            cons.append(z3.ForAll([i], z3.Implies(z3.And(0 <= i, i < b.comps[0]), z3.Select(ra, a.comps[0] + i) == z3.Select(ba, i))))
+            cons.append(z3.ForAll([i], z3.Implies(z3.And(a.comps[0] <= i, i < r.comps[0]), z3.Select(ra, i) == z3.Select(ba, i - a.comps[0])), patterns=[z3.Select(ra, i)]))
         if safety:
             safety("__assume__", z3.And(*cons))
         return r
